@@ -50,7 +50,7 @@ def strategy(tier):
     tm = st.integers(0, 240).map(lambda x: x / 20.0)
     dgram = st.tuples(tm, st.integers(0, 6)).map(list)  # verb 5 = unknown, 6 = request reply verb family
     # third element: which send of the burst cannot be transmitted (0 = none, k = the k-th has no send_bytes, -k = the k-th has no destination)
-    burst = st.tuples(tm, st.integers(1, 5), st.sampled_from([0, 0, 1, 2, -1, -3])).map(list)
+    burst = st.tuples(tm, st.integers(1, 5), st.sampled_from([0, 0, 1, 2, -1, -3, 7, 7])).map(list)
     req = st.builds(lambda t, T, N, a, steal, refuse: dict({"t": t, "T": T, "N": N, "answer": a, "shadow": steal}, **({"refused": True} if refuse else {})),
                     tm, st.sampled_from([1.0, 1.0, 2.5, 4.0]), st.integers(0, 6),
                     # the answer: never / at a generated time / just after the k-th timeout has elapsed (a late answer that meets the
@@ -207,6 +207,15 @@ def _part_engine(res, case):
                 _, kind, arg = actions.pop(0)
                 if kind == "burst":
                     count, bad = arg
+                    if bad == 7:
+                        # the same handler objects queued again while their earlier copies are still waiting (as the ping thread and a
+                        # hello responder do): the queue is a FIFO of the calls, not a set of handlers
+                        pair_ = [H(f"s{sid[0]}", [], send_bytes=b"SEND%03d" % sid[0]), H(f"s{sid[0] + 1}", [], send_bytes=b"SEND%03d" % (sid[0] + 1))]
+                        sid[0] += 2
+                        for i in range(count + 1):
+                            sock.queue_send(pair_[i % 2], DEST)
+                        info["reuse"] = True
+                        count = 0
                     for i in range(count):
                         if bad and i + 1 == abs(bad):
                             # a send that cannot be transmitted: building it raises (no send_bytes) or it has no destination
@@ -494,6 +503,8 @@ def run_case(case) -> Result:
             res.label("engine-untransmittable-send")
         if info.get("refused"):
             res.label("engine-first-transmission-refused")
+        if info.get("reuse"):
+            res.label("engine-handler-object-queued-repeatedly")
     elif part == "handshake":
         plan = _part_handshake(res, case)
         lossy = sum(1 for v in plan.values() if v)
